@@ -263,7 +263,7 @@ pub fn run_check_with_context(opts: &CheckOptions<'_>) -> crate::Result<i32> {
             if fail_fast
                 && result.is_failure()
                 && !baseline.is_some_and(|b| {
-                    b.contains(&file_path.to_string_lossy().replace('\\', "/"))
+                    b.contains(&crate::baseline::baseline_key(file_path))
                 })
             {
                 failure_detected.store(true, Ordering::Relaxed);
@@ -348,14 +348,14 @@ pub fn run_check_with_context(opts: &CheckOptions<'_>) -> crate::Result<i32> {
     // Paths this run evaluated: every path that produced a result, plus every scanned directory.
     let mut evaluated: std::collections::HashSet<String> = results
         .iter()
-        .map(|r| r.path().to_string_lossy().replace('\\', "/"))
+        .map(|r| crate::baseline::baseline_key(r.path()))
         .collect();
     if !skip_structure_checks && let Some(ref scan_result) = scan_result {
         evaluated.extend(
             scan_result
                 .dir_stats
                 .keys()
-                .map(|d| d.to_string_lossy().replace('\\', "/")),
+                .map(|d| crate::baseline::baseline_key(d)),
         );
     }
     let ratchet_failed = handle_baseline_ratchet(
